@@ -45,6 +45,7 @@ def families(tier):
         fam['single_abc5'] = lambda: R.family_single(R.V_QUICK, 3, [0.5], patterns=['ABC'])
         fam['pairs_quick'] = lambda: R.family_multi(R.V_QUICK, 2, [0.5, 0.25], 2)
         fam['triples_tiny'] = lambda: R.family_multi(R.V_TINY, 2, [0.5, 0.25], 3)
+        fam['single_4vars'] = lambda: R.family_single([1.0, 0.5, 0.25, 0.3], 2, [0.5], patterns=R.PATTERNS4)
     return fam
 
 
